@@ -167,6 +167,8 @@ TrFault ==
             [] OTHER -> GSkip(A, ev.f)
      ELSE IF Role[A] = "reader" THEN RFault(A)
      ELSE IF InCreate(A) THEN KFault(A)
+     ELSE IF pc[A] = "c_wmeta" /\ ev.when = "before" /\ ev.op = "exists" /\ ev.cls = "meta" THEN FaultInVersionProbe(A)
+     ELSE IF ev.when = "after" /\ ev.cls = "meta" THEN ev.op = "write_file" /\ AfterMetaWriteFail(A)
      ELSE IF ev.when = "after" THEN ev.cls = "hint" /\ ev.op \in {"write_file", "write_file_cas"} /\ AmbiguousAfterFlip(A)
      ELSE IF pc[A] \in {"rollback", "c_cleanup"} /\ ev.when # "async"
      THEN IF ev.cls = "marker" THEN SkipMarker(A, ev.f) ELSE SkipRollbackData(A, ev.f)
@@ -249,7 +251,8 @@ TrFlipHint ==
           /\ ev.ok <=> (hint' = [cls |-> "name", name |-> MyMetaName(A)] /\ loc'[A].after \in {"c_finish", "c_cleanup"})
 
 TrBackoff == IsEv("Backoff") /\ Backoff(A)
-TrDiscardMeta == IsEv("DiscardMeta") /\ Name(ev.name) = MyMetaName(A) /\ (IF ev.ok THEN DiscardMeta(A) ELSE DiscardMetaFails(A))
+\* (loc.target = 0: the metadata write itself failed, the handler's removal attempt finds nothing)
+TrDiscardMeta == IsEv("DiscardMeta") /\ (Name(ev.name) = MyMetaName(A) \/ loc[A].target = 0) /\ (IF ev.ok THEN DiscardMeta(A) ELSE DiscardMetaFails(A))
 TrCrash == IsEv("Crash") /\ Crash(ev.who)
 TrHeartbeat == IsEv("Heartbeat") /\ IF ev.ok THEN (IF lease.t = clock THEN lockHolder = ev.who /\ Stutter ELSE Heartbeat(ev.who))
                                                ELSE (lockHolder # ev.who /\ Stutter)
